@@ -142,4 +142,74 @@ theorem setup_slots (K : Bytes) (db : DB) (t t' : Tape) (edb : PiPtrEDB) (h : se
       rw [hdrop]
       simp [hno]
 
+/-- number of identifier blocks of one keyword's list -/
+def kwBlocks (ids : List Bytes) : Nat :=
+  match partitionBlocks ids cfg.B cfg.idSize with | .ok bl => bl.length | .error _ => 0
+
+theorem nBlocks_cons (p : Bytes × List Bytes) (rest : DB) : nBlocks cfg (p :: rest) = kwBlocks cfg p.2 + nBlocks cfg rest := by
+  simp [nBlocks, kwBlocks]
+
+variable (hde : ∀ key iv msg c, iv.length = 16 → cfg.ske.encrypt lv.E key iv msg = .ok c → cfg.ske.decrypt lv.D key c = .ok msg)
+include hde
+
+/-- the blocks of the keyword that comes after `pre` in the processing order sit, in order, in the slots
+    `sample.reverse[nBlocks pre], sample.reverse[nBlocks pre + 1], …` — the image, under the recorded random sample, of an
+    index segment that depends on the database only through block COUNTS -/
+theorem encDb_segment (K : Bytes) (idx : Nat) (pre : DB) (w : Bytes) (ids : List Bytes) (post : DB) (avail : List Nat)
+    (A : List (Option Bytes)) (t : Tape) (L : List (Bytes × Bytes)) (A' : List (Option Bytes)) (t' : Tape)
+    (h : encDb cfg lv K idx (pre ++ (w, ids) :: post) avail A t = .ok (L, A', t')) (hn : avail.Nodup) :
+    ∃ K1 K2 blocks poss ptrs, token cfg lv K w = .ok (K1, K2) ∧ partitionBlocks ids cfg.B cfg.idSize = .ok blocks ∧
+      Placed cfg lv K2 idx A' blocks poss ptrs ∧
+      poss = (avail.reverse.drop (nBlocks cfg pre)).take (kwBlocks cfg ids) := by
+  induction pre generalizing avail A t L with
+  | nil =>
+    simp only [List.nil_append] at h
+    obtain ⟨K1, K2, blocks, ptrs, avail1, A1, t1, pblocks, ps, t2, qs, htk, hb, hpl, hpb, hch, hrest, rfl⟩ :=
+      encDb_cons cfg lv K idx w ids post avail A t L A' t' h
+    obtain ⟨poss, hP, hav, _, _⟩ := placeBlocks_spec cfg lv hde K2 idx blocks avail A t ptrs avail1 A1 t1 hpl hn
+    have hn1 : avail1.Nodup := by rw [hav] at hn; exact (List.nodup_append.mp hn).1
+    refine ⟨K1, K2, blocks, poss, ptrs, htk, hb, ?_, ?_⟩
+    · apply hP.mono
+      intro i hi
+      apply encDb_preserves cfg lv hde K idx post avail1 A1 t2 qs A' t' hrest hn1
+      intro hm1
+      rw [hav] at hn
+      exact (List.nodup_append.mp hn).2.2 i hm1 i (List.mem_reverse.mpr hi) rfl
+    · have hl := hP.lengths.1
+      simp only [nBlocks, List.map_nil, List.sum_nil, List.drop_zero, kwBlocks, hb]
+      rw [hav, List.reverse_append, List.reverse_reverse, ← hl, List.take_left]
+  | cons p0 rest ih =>
+    obtain ⟨w0, ids0⟩ := p0
+    simp only [List.cons_append] at h
+    obtain ⟨K1, K2, blocks, ptrs, avail1, A1, t1, pblocks, ps, t2, qs, htk, hb, hpl, hpb, hch, hrest, rfl⟩ :=
+      encDb_cons cfg lv K idx w0 ids0 (rest ++ (w, ids) :: post) avail A t L A' t' h
+    obtain ⟨poss0, hP, hav, _, _⟩ := placeBlocks_spec cfg lv hde K2 idx blocks avail A t ptrs avail1 A1 t1 hpl hn
+    have hn1 : avail1.Nodup := by rw [hav] at hn; exact (List.nodup_append.mp hn).1
+    obtain ⟨K1', K2', blocks', poss, ptrs', a1, a2, a3, a4⟩ := ih avail1 A1 t2 qs hrest hn1
+    refine ⟨K1', K2', blocks', poss, ptrs', a1, a2, a3, ?_⟩
+    rw [a4, nBlocks_cons, hav, List.reverse_append, List.reverse_reverse]
+    have hl : poss0.length = kwBlocks cfg ids0 := by simp [kwBlocks, hb, hP.lengths.1]
+    rw [← hl, List.drop_append]
+    have : List.drop (poss0.length + nBlocks cfg rest) poss0 = [] := List.drop_eq_nil_of_le (by omega)
+    simp [this]
+
+/-- PiPtr: where the blocks of a keyword are, as a function of the recorded sample and of block counts only -/
+theorem setup_segment (K : Bytes) (pre : DB) (w : Bytes) (ids : List Bytes) (post : DB) (t t' : Tape) (edb : PiPtrEDB)
+    (h : setup cfg lv K (pre ++ (w, ids) :: post) t = .ok (edb, t'))
+    (sample : List Nat) (t0 : Tape) (hs : takeNats t = .ok (sample, t0)) (hn : sample.Nodup) :
+    ∃ K1 K2 blocks poss ptrs, token cfg lv K w = .ok (K1, K2) ∧ partitionBlocks ids cfg.B cfg.idSize = .ok blocks ∧
+      Placed cfg lv K2 (bytesFor (arrayLen cfg (pre ++ (w, ids) :: post))) edb.A blocks poss ptrs ∧
+      poss = (sample.reverse.drop (nBlocks cfg pre)).take (kwBlocks cfg ids) := by
+  simp only [setup, bind, Except.bind, hs] at h
+  split at h
+  · simp [throw, throwThe, MonadExceptOf.throw] at h
+  · simp only [pure, Except.pure] at h
+    split at h
+    · cases h
+    · rename_i r hr
+      obtain ⟨L, A, t1⟩ := r
+      simp only at h
+      cases h
+      exact encDb_segment cfg lv hde K _ pre w ids post sample _ t0 L A _ hr hn
+
 end SSEPy.Sch.PiPtr
